@@ -24,6 +24,26 @@ impl Monitor for C08 {
         let fm = c.w.a.fm.to_string();
         let a = posmap(pre);
         let b = posmap(post);
+        // ------------------------------------------------------------ an owner can always get out
+        // (a position that cannot be closed never unlocks; one that cannot be emergency-withdrawn is
+        // stuck): a close / emergency withdrawal by the owner that fails inside the contract
+        if let Op::Fm { sender, msg: FmMsg::ManagePosition { action }, .. } = &step.op {
+            let id = match action {
+                PositionAction::Close { identifier, .. } => Some(identifier),
+                PositionAction::Withdraw { identifier, .. } => Some(identifier),
+                _ => None,
+            };
+            if let Some(p0) = id.and_then(|i| a.get(i.as_str())) {
+                if p0.receiver.as_str() == sender.as_str() {
+                    if let Some(e) = internal_failure(out, step, pre) {
+                        return Err(viol("C08.exit_blocked", format!("{} of position {} by its owner fails inside the contract: {e}", step.op.kind(), p0.identifier)));
+                    }
+                }
+            }
+        }
+        if c.step_no % 7 == 5 {
+            derived_exits(c, post, "C08", 6)?;
+        }
         // ------------------------------------------------------------ frame condition
         let mut changed: Vec<String> = vec![];
         for (id, p) in a.iter() {
